@@ -33,3 +33,8 @@ func (s *Service) VerifPeek() (running bool, listener net.Listener, conncount in
 
 // VerifNames returns a copy of the registered names in order.
 func (s *Service) VerifNames() []string { return append([]string(nil), s.names...) }
+
+// VerifNewResolver wraps an established connection exactly as NewResolver does after dialling.
+func VerifNewResolver(c *Connection, address string) *Resolver {
+	return &Resolver{address: address, conn: c}
+}
